@@ -217,6 +217,7 @@ def mir_facts(tier):
     for c in crates.values():
         corpus.crate_source(c)   # fills line numbers / closure positions of every declaration
     cd = cache_dir(tier if tier != 'thorough' else f'thorough-{seed()}')
+    all_decls = {(cn, d['name']): d for cn, c in crates.items() for d in c['decls']}
     with Lock(os.path.join(cd, '.lock')):
         marker = os.path.join(cd, 'mir.ok')
         if not os.path.exists(marker):
@@ -309,11 +310,46 @@ def mir_facts(tier):
     if info.get('dropped'):
         names = {(x['crate'], x['name']) for x in info['dropped']}
         for x in info['dropped']:
-            for d in crates[x['crate']]['decls']:
-                if d['name'] == x['name']:
-                    x['decl'] = d
+            x['decl'] = all_decls.get((x['crate'], x['name']))
         for cn, c in crates.items():
             c['decls'] = [d for d in c['decls'] if (cn, d['name']) not in names]
             corpus.crate_source(c)
+    paths = {n: os.path.join(cd, f'mir-{n}.json') for n in crates if os.path.exists(os.path.join(cd, f'mir-{n}.json'))}
+    return crates, paths, info
+
+
+def test_facts(tier):
+    """MIR facts of the corpus crate compiled in test mode (cfg(test)): the unit tests the macro generates
+    into the user's crate are analysed, never run. Returns (crates, paths, info)."""
+    crates = corpus.build_tests(tier)
+    for c in crates.values():
+        corpus.crate_source(c)
+    cd = cache_dir('gentests-' + tier)
+    with Lock(os.path.join(cd, '.lock')):
+        if not os.path.exists(os.path.join(cd, 'ok')):
+            t0 = time.time()
+            sc = scratch()
+            out = os.path.join(sc, 'testmirout')
+            os.makedirs(out, exist_ok=True)
+            ws = os.path.join(sc, 'wstests')
+            make_workspace(ws, crates)
+            env = cargo_env({
+                'LD_LIBRARY_PATH': nightly_sysroot() + '/lib',
+                'RUSTFLAGS': '-Zmir-opt-level=0 -Awarnings',
+                'RUSTC_WORKSPACE_WRAPPER': NUMIR,
+                'NUMIR_OUT': out,
+                'CARGO_TARGET_DIR': os.path.join(sc, 'wstests-target'),
+            })
+            p = run(['cargo', '+nightly', 'check', '--offline', '--workspace', '--lib', '--profile', 'test', '-j', '16'], ws, env, 'generated-tests corpus (cfg(test))')
+            shutil.rmtree(os.path.join(sc, 'wstests-target'), ignore_errors=True)
+            info = {'built_s': round(time.time() - t0, 1), 'rc': p.returncode, 'tail': p.stdout[-3000:] if p.returncode else ''}
+            for fn in os.listdir(out):
+                if fn.endswith('.json'):
+                    shutil.move(os.path.join(out, fn), os.path.join(cd, 'mir-' + fn.rsplit('-', 1)[0] + '.json'))
+            for n in crates:
+                shutil.copy(os.path.join(ws, n, 'src', 'lib.rs'), os.path.join(cd, f'src-{n}.rs'))
+            json.dump(info, open(os.path.join(cd, 'info.json'), 'w'))
+            open(os.path.join(cd, 'ok'), 'w').write('ok')
+        info = json.load(open(os.path.join(cd, 'info.json')))
     paths = {n: os.path.join(cd, f'mir-{n}.json') for n in crates if os.path.exists(os.path.join(cd, f'mir-{n}.json'))}
     return crates, paths, info
